@@ -52,25 +52,30 @@ Lemma leaf_boundary a emit e p sg p' sg' f : leaf G e = true -> Forall valid_utf
   eval G extras uprop w 1 a emit e p sg = SMatch p' sg' f -> Inv p' sg'.
 Proof.
   intros L V I. pose proof I as [B Vs]. destruct e; cbn [leaf] in L; try discriminate; cbn [Spec.eval estrs] in *.
-  - destruct (lit w s p) eqn:E; [|discriminate]. intros [= <- <- _]. split; auto. eapply lit_boundary; eauto. now inversion V.
+  - destruct (lit w s p) eqn:E; [|discriminate]. intros [= <- <- _]. split; auto. eapply lit_boundary; [exact B| |exact E]. now inversion V.
   - destruct (boundaryb w (p + List.length s)) eqn:E; cbn [andb]; [|discriminate]. destruct (prefixb_ci _ _); [|discriminate].
     intros [= <- <- _]. split; auto.
   - now apply one_char_boundary.
-  - repeat match goal with |- (if ?c then _ else _) = _ -> _ => destruct c end.
-    + destruct (Nat.eqb _ _); [|discriminate]. now intros [= <- <- _].
-    + destruct (Nat.eqb _ _); [|discriminate]. now intros [= <- <- _].
-    + destruct sg as [|top rest]; [discriminate|]. destruct (lit w top p) eqn:E; [|discriminate]. intros [= <- <- _].
-      split; auto. eapply lit_boundary; eauto. now inversion Vs.
-    + destruct sg as [|top rest]; [discriminate|]. destruct (lit w top p) eqn:E; [|discriminate]. intros [= <- <- _].
-      inversion Vs; subst. split; auto. eapply lit_boundary; eauto.
-    + destruct sg as [|top rest]; [discriminate|]. intros [= <- <- _]. inversion Vs; subst. split; auto.
-    + destruct (lit_all w sg p) eqn:E; [|discriminate]. intros [= <- <- _]. split; auto. eapply lit_all_boundary; eauto.
-    + destruct (lit_all w sg p) eqn:E; [|discriminate]. intros [= <- <- _]. split; [|constructor]. eapply lit_all_boundary; eauto.
-    + destruct (lit w [10%N] p) eqn:E1; [intros [= <- <- _]; split; auto; eapply lit_boundary; eauto using valid_byte10|].
-      destruct (lit w [13%N; 10%N] p) eqn:E2; [intros [= <- <- _]; split; auto; eapply lit_boundary; eauto using valid_crlf|].
-      destruct (lit w [13%N] p) eqn:E3; [intros [= <- <- _]; split; auto; eapply lit_boundary; eauto using valid_byte13|discriminate].
-    + destruct (ascii_builtin n); [now apply one_char_boundary|].
-      destruct (find_rule G n); [destruct (rule_mode _ _ _ _); discriminate|]. destruct (uprop n); [now apply one_char_boundary|discriminate].
+  - destruct (str_eqb n (nm "SOI")). { destruct (Nat.eqb p 0); [now intros [= <- <- _]|discriminate]. }
+    destruct (str_eqb n (nm "EOI")). { destruct (Nat.eqb p (List.length w)); [now intros [= <- <- _]|discriminate]. }
+    destruct (str_eqb n (nm "PEEK")).
+    { destruct sg as [|top rest]; [discriminate|]. destruct (lit w top p) eqn:E; [|discriminate]. intros [= <- <- _].
+      split; auto. eapply lit_boundary; [exact B| |exact E]. now inversion Vs. }
+    destruct (str_eqb n (nm "POP")).
+    { destruct sg as [|top rest]; [discriminate|]. destruct (lit w top p) eqn:E; [|discriminate]. intros [= <- <- _].
+      inversion Vs; subst. split; auto. eapply lit_boundary; [exact B| |exact E]. assumption. }
+    destruct (str_eqb n (nm "DROP")).
+    { destruct sg as [|top rest]; [discriminate|]. intros [= <- <- _]. inversion Vs; subst. split; auto. }
+    destruct (str_eqb n (nm "PEEK_ALL")).
+    { destruct (lit_all w sg p) eqn:E; [|discriminate]. intros [= <- <- _]. split; auto. eapply lit_all_boundary; [exact B| |exact E]. assumption. }
+    destruct (str_eqb n (nm "POP_ALL")).
+    { destruct (lit_all w sg p) eqn:E; [|discriminate]. intros [= <- <- _]. split; [|constructor]. eapply lit_all_boundary; [exact B| |exact E]. assumption. }
+    destruct (str_eqb n (nm "NEWLINE")).
+    { destruct (lit w [10%N] p) eqn:E1; [intros [= <- <- _]; split; auto; eapply lit_boundary; [exact B|apply valid_byte10|exact E1]|].
+      destruct (lit w [13%N; 10%N] p) eqn:E2; [intros [= <- <- _]; split; auto; eapply lit_boundary; [exact B|apply valid_crlf|exact E2]|].
+      destruct (lit w [13%N] p) eqn:E3; [intros [= <- <- _]; split; auto; eapply lit_boundary; [exact B|apply valid_byte13|exact E3]|discriminate]. }
+    destruct (ascii_builtin n); [now apply one_char_boundary|].
+    destruct (find_rule G n); [destruct (rule_mode _ _ _ _); discriminate|]. destruct (uprop n); [now apply one_char_boundary|discriminate].
   - destruct (norm_idx i _) as [s0|]; [|discriminate]. destruct (match j with Some _ => _ | None => _ end) as [e0|]; [|discriminate].
     destruct (Nat.leb e0 s0); [now intros [= <- <- _]|].
     destruct (lit_all _ _ _) eqn:E; [|discriminate]. intros [= <- <- _]. split; auto. eapply lit_all_boundary; [exact B| |exact E].
@@ -79,3 +84,33 @@ Proof.
   - intros [= <- <- _]. split; auto. apply skip_until_basic_boundary. now apply boundaryb_le.
   - intros [= <- <- _]. split; auto. constructor; auto. now inversion V.
 Qed.
+
+Definition res_inv (r : sres) : Prop := match r with SMatch p sg _ => Inv p sg | _ => True end.
+
+Theorem bs_boundary a emit j p sg res : bs a emit j p sg res -> jvalid valid_utf8 j -> Inv p sg -> res_inv res.
+Proof.
+  induction 1; intros V I; cbn [jvalid estrs] in V; try (apply Forall_app in V; destruct V as [V1 V2]); cbn [res_inv]; auto.
+  - (* leaf *) unfold res_inv. destruct (eval G extras uprop w 1 a emit e p sg) eqn:E; auto. eapply leaf_boundary; eauto.
+  - (* call *) assert (R := IHbs (VG _ _ H0) I). destruct res; cbn in *; auto.
+  - (* seq *) assert (R1 := IHbs1 V1 I). assert (R2 := IHbs2 Logic.I R1). assert (R3 := IHbs3 V2 R2). destruct res; cbn in *; auto.
+  - (* opt *) assert (R := IHbs V I). destruct res; cbn in *; auto.
+  - (* rep *) apply IHbs2; auto. apply (IHbs1 V I).
+  - (* rep1x *) apply IHbs2; auto. apply (IHbs1 V I).
+  - (* rep1d *) apply IHbs; auto. cbn [jvalid estrs]. apply Forall_app; auto.
+  - (* bounded *) apply IHbs; auto. cbn [jvalid]. eapply unroll_node_strs; eauto.
+  - (* pos *) destruct res; cbn; auto.
+  - (* neg *) destruct res; cbn; auto.
+  - (* push *) assert (R := IHbs V I). destruct res as [q sg2 f2| |]; cbn in *; auto. destruct R as [Bq Vq]. split; auto. constructor; auto.
+    destruct I as [Bp _]. destruct (Nat.le_gt_cases p q) as [L|L]; [now apply valid_slice|].
+    replace (q - p) with 0 by lia. apply valid_nil.
+  - (* tag *) assert (R := IHbs V I). destruct res; cbn in *; auto.
+  - (* many_step *) apply IHbs2; auto. apply (IHbs1 Logic.I I).
+  - (* cw_step *) apply IHbs3; auto. apply (IHbs2 Logic.I). apply (IHbs1 Logic.I I).
+  - (* rep_step *) apply IHbs3; auto. apply (IHbs2 V). apply (IHbs1 Logic.I I).
+  - (* skip_both *) apply IHbs2; auto. apply (IHbs1 Logic.I I).
+Qed.
+
+Corollary boundary_preserved : preserved G extras uprop w valid_utf8 Inv.
+Proof. intros a emit j p sg p' sg' f V H I. exact (bs_boundary _ _ _ _ _ _ H V I). Qed.
+
+End Boundary.
